@@ -357,14 +357,23 @@ func c16RunProgram(c *C) {
 	var files map[string]string
 	src := body
 	sources := map[string]string{}
+	bom := ""
+	if r.Chance(25) {
+		bom = "\xEF\xBB\xBF" // a file that starts with a byte order mark: three bytes of text like any other
+	}
 	switch route {
 	case 0, 1:
 		sources["<string>"] = body
+		if bom != "" {
+			files = map[string]string{"/main.tpl": bom + body}
+			src = ""
+			delete(sources, "<string>")
+		}
 	case 2: // error inside an included file
-		files = map[string]string{"/main.tpl": c16Layout(r) + "{% include \"sub/inc.tpl\" %}" + c16Layout(r), "/sub/inc.tpl": body}
+		files = map[string]string{"/main.tpl": c16Layout(r) + "{% include \"sub/inc.tpl\" %}" + c16Layout(r), "/sub/inc.tpl": bom + body}
 		src = ""
 	case 3: // inside an extended parent's block / the parent itself
-		files = map[string]string{"/main.tpl": "{% extends \"base.tpl\" %}{% block b %}child{% endblock %}", "/base.tpl": c16Layout(r) + "{% block b %}x{% endblock %}" + body}
+		files = map[string]string{"/main.tpl": "{% extends \"base.tpl\" %}{% block b %}child{% endblock %}", "/base.tpl": bom + c16Layout(r) + "{% block b %}x{% endblock %}" + body}
 		src = ""
 	case 5, 6: // inside a block of a child template (5: Execute, 6: ExecuteBlocks); base and child differ in every line
 		files = map[string]string{"/main.tpl": "{% extends \"base.tpl\" %}" + c16Layout(r) + "{% block b %}" + body + "{% endblock %}", "/base.tpl": "base line 1\nbase line 2 " + c16Layout(r) + "{% block b %}x{% endblock %}" + c16Layout(r)}
@@ -375,7 +384,7 @@ func c16RunProgram(c *C) {
 			sources["<string>"] = body
 		}
 	default: // inside an imported macro file / a macro body executed by the importer
-		files = map[string]string{"/main.tpl": c16Layout(r) + "{% import \"lib.tpl\" mm %}{{ mm() }}", "/lib.tpl": "{% macro mm() export %}" + body + "{% endmacro %}"}
+		files = map[string]string{"/main.tpl": c16Layout(r) + "{% import \"lib.tpl\" mm %}{{ mm() }}", "/lib.tpl": bom + "{% macro mm() export %}" + body + "{% endmacro %}"}
 		src = ""
 		if strings.Contains(b.src, "{% macro") || strings.Contains(b.src, "{% block") {
 			files = nil
@@ -412,7 +421,7 @@ func c16RunProgram(c *C) {
 		c.Sample(d)
 	}
 	// (c) shift relation
-	if o.err != nil && o.err.Line > 0 && route <= 1 {
+	if o.err != nil && o.err.Line > 0 && route <= 1 && files == nil {
 		a, bcols := r.Intn(4), r.Intn(6)
 		ins := strings.Repeat("pad line\n", a) + strings.Repeat("x", bcols)
 		o2 := c16RunProg(nil, ins+body, ctx)
